@@ -153,3 +153,4 @@ H("C03", "html/tree", "VxH_C03_weight", reach=["done"], bounds="three weights, p
 H("C03", "html/tree", "VxH_C03_cascade", reach=["computed", "style-attribute"], bounds="K=2 (thorough 3) declarations: origin in {UA,user,author}, importance, specificity in [0..2]x[0..1]x[0..1]; optional style attribute (plain / !important)")
 H("C03", "css/validation", "VxH_C03_nesting", reach=["flattened"], bounds="style rule with 1..3 items, each an own declaration, a nested '&{...}' rule or an unrelated nested rule")
 H("C03", "html/tree", "VxH_C03_page", reach=["nth-match", "nth-no-match"], bounds="@page selector with side/name/blank/first symbolic, :nth step A enumerated in [-6,6], offset |B| <= 2^10 (thorough 2^20), page index in [0, 2^10] (thorough 2^20), witness n arbitrary")
+H("C03", "html/tree", "VxH_C03_sheets", reach=["computed"], bounds="GetAllComputedStyles with UA / presentational-hint / optional user sheets holding one rule of symbolic specificity in [0,3]^3 each, against an author <style> rule p{...}")
